@@ -76,6 +76,8 @@ class DriverInterp(Interp):
                 return Sc(Poly.sym("len_" + a0.dim))
         if isinstance(a0, IterMutV) and name == "enumerate":
             return EnumV(a0)
+        if isinstance(a0, (EnumV, IterMutV)) and name == "for_each" and len(args) == 2:
+            return self.loop_over(a0, unref(args[1]), None, e)
         if isinstance(a0, VecIter):
             if name == "map":
                 return VecIter(VecV(self.call_closure(unref(args[1]), [deep(a0.vec.elem)], e), a0.vec.dim, a0.vec.idx))
@@ -105,6 +107,11 @@ class DriverInterp(Interp):
             body = some_arm["body"]
         except (KeyError, IndexError, TypeError):
             self.unsupported("for-loop desugaring shape", e)
+        return self.loop_over(itv, None, (pat, body, env), e)
+
+    def loop_over(self, itv, closure, forparts, e):
+        """one element-uniform iteration over an (enumerated) mutable vector iterator: the loop body (for loop) or the closure
+        (for_each) is evaluated for the symbolic element; loop-carried state is detected and tested for uniformity"""
         if isinstance(itv, EnumV) and isinstance(itv.it, IterMutV):
             vec = itv.it.vec
             cell = [vec.elem]
@@ -117,11 +124,21 @@ class DriverInterp(Interp):
         else:
             self.unsupported("for loop over %r" % (itv,), e)
         original = deep(vec.elem)
+        if forparts is not None:
+            pat, body, env = forparts
+        else:
+            env = dict(closure.env) if hasattr(closure, "env") else {}
+            pat, body = None, None
         before = {k: freeze(c[0]) for k, c in env.items()}
-        if not self.bind(pat, item, env):
-            self.unsupported("for pattern", e)
-        bound = {k for k in env if k not in before}
-        self.ev(body, env)
+
+        def run_once(it_item):
+            if forparts is not None:
+                if not self.bind(pat, it_item, env):
+                    self.unsupported("for pattern", e)
+                self.ev(body, env)
+            else:
+                self.call_closure(closure, [it_item], e)
+        run_once(item)
         carried = [k for k, c in env.items() if k in before and unref(c[0]) is not vec and freeze(c[0]) != before[k]]
         if carried:
             # state is carried between iterations: the body is element-uniform only if a second iteration on the carried
@@ -132,8 +149,7 @@ class DriverInterp(Interp):
                 item2 = Tup([Sc(Poly.var(idx2)), Ref(cell2, 0)])
             else:
                 item2 = Ref(cell2, 0)
-            self.bind(pat, item2, env)
-            self.ev(body, env)
+            run_once(item2)
             want = freeze(cell[0], {vec.idx: idx2})
             got = freeze(cell2[0])
             if want != got:
